@@ -234,11 +234,11 @@ EXTRA = {
     "C15": "R15.6 builder integrity of TextStyleBuilder (as R14.5). R15.7 sibling agreement: the font constants of one name carry the same metrics (size, spacing, baseline, underline, strikethrough) in every glyph subset.",
     "C20": "R20.6 every returning path of from_pattern has established width <= SIZE and height <= SIZE and no other condition on the pattern's dimensions.",
     "C02": "R02.10 every path of Polyline::draw_styled that touches the target with the raw stroke colour has excluded stroke_width == 0. R02.9 Line::styled_bounding_box is with_corners over exactly the four end points of extents(stroke_width, StrokeOffset::None) (a fold over the literal array of the four points is expanded).",
-    "C06": "R06.7 the fill range of a styled scanline (circle, ellipse, rounded rectangle) is searched over the stroke scanline's own column range from its first column; a skipped or shifted range is reported.",
+    "C06": "R01.4 (shared with C01) Scanline::draw is one fill_solid of exactly the run's columns iff the run is not empty. R06.7 the fill range of a styled scanline (circle, ellipse, rounded rectangle) is searched over the stroke scanline's own column range from its first column; a skipped or shifted range is reported.",
     "C11": "R11.8 layout form: load/store of the sub-byte types with every helper inlined, evaluated in the bit domain for both data orders and every pixel index of two bytes against the documented layout (independent of the bit_position helper). R11.6 construction: RawDataSlice::into_iter starts with data = self.data and index = 0. R11.9 the public RawData::load/store of all 7 types hand (self,) buffer, index to LoadStore and return its outcome on every path; a path answering by itself must have established load(buffer, index) is Some(self) (Ok without a store) or is None (Err/None).",
     "C12": "O6 also covers to_ne_bytes (native order of the analysed host build).",
     "C16": "R16.8 (decision by order types, mirq/orders.py) for non-empty rectangles Rectangle::intersection takes the corner-building exit exactly when column ranges and row ranges overlap: all 100 x 100 order types of the eight corner coordinates are read off the path summaries; arithmetic on a coordinate makes the rule undecided.",
-    "C17": "R17.6 the styled line's pixel iterator pulls exactly one item of ThickPoints::next per call, ends iff the pull ends and returns Pixel(pulled point, colour): no filter or search over the point iterator.",
+    "C17": "R17.7 pixels(style) and draw_styled of a Line build StyledPixelsIterator::new(self, style) from the unmodified line on every path. R17.6 the styled line's pixel iterator pulls exactly one item of ThickPoints::next per call, ends iff the pull ends and returns Pixel(pulled point, colour): no filter or search over the point iterator.",
     "C18": "R18.9 the first / last column of a rounded-rectangle row is searched over the rectangle's whole column range (a corner can be wider than half the rectangle). R05.1 sector wiring (Sector::contains = circle test and PlaneSector test on 2p - center_2x; Sector::center_2x equals the circle's formula).",
     "C19": "R19.5 (decision by order types) Triangle::sorted_yx returns a permutation of the vertices ordered by (y, x) for all 729 order types of the six coordinates. R19.6 the triangle stored in ScanlineIntersections and asked is_collapsed is sorted_clockwise(..) on every path, traced through parameters to every call site. R19.7 a Pixel built from an item of polyline::Points in the polyline's styled code has that item itself as its point (no second translation), and every item reaches the pixel closure (no skip/filter/take). R19.8 the one-pixel case of ThickSegment::intersection intersects exactly edges().0 on every skeleton path.",
 }
